@@ -802,7 +802,34 @@ def build_library(seed, tier):
                 ins.append({"s": "sib_allowed"})
             steps = d["steps"][:rsteps[-1]] + ins + d["steps"][rsteps[-1]:]
             sibs.append(dict(d, id=f"{d['id']}~sib-{h}", steps=steps, twin_of=d["id"], twin_kind="sibling"))
-    return lib + twins + sibs
+    # loader-reuse variants (solo only): render with a TemplateLoader the session keeps, make an
+    # edit that does NOT touch the list of reactions, render again with the same loader.  The last
+    # rendering must equal that of the same script without the first rendering.
+    reuse = []
+    pos = {}
+    for d in base:
+        j = pos.get(d["family"], 0)
+        pos[d["family"]] = j + 1
+        r = next((i for i, st in enumerate(d["steps"]) if st["s"] == "render"), None)
+        if d["entry"] != "api" or r is None or (tier == "quick" and j % 2 == 0):
+            continue
+        n = d["net"]
+        extra = next((x for x in ("N", "He", "HE", "D", "S", "O") if x in (n.get("elements") or [])
+                      and x not in (n.get("required_species") or [])), None)
+        edits = [{"s": "set_rate_modifier", "values": {"0": "7.7e-11", "1": "8.8e-11"}},
+                 {"s": "shielding_inplace", "values": {"CO": "V09Table", "H2": "L96Table"}}]
+        if extra and not n.get("allowed_species"):
+            edits.insert(0, {"s": "set_required", "names": list(n.get("required_species") or []) + [extra]})
+        if n.get("grain_model"):
+            pre = (n.get("species_kwargs") or {}).get("surface_prefix", "#")
+            edits.append({"s": "set_eb", "values": {pre + "CO": 999.0, pre + "H2O": 4321.0, pre + "O2": 777.0}})
+        for e in ([edits[(j // 2) % len(edits)]] if tier == "quick" else edits):
+            R = dict(d["steps"][r], reuse_loader=True)
+            R.pop("inplace", None)
+            full = dict(d, id=f"{d['id']}~reuse-{e['s']}", steps=d["steps"][:r] + [dict(R), dict(e), dict(R)], solo_only=True)
+            last = dict(d, id=full["id"] + "~last", steps=d["steps"][:r] + [dict(e), dict(R)], twin_of=full["id"])
+            reuse += [full, last]
+    return lib + twins + sibs + reuse
 
 
 RENDER_KINDS = ("render", "to_code", "cli_render", "export")
